@@ -8,6 +8,7 @@ import (
 	"go/constant"
 	"go/token"
 	"go/types"
+	"strconv"
 	"strings"
 
 	"golang.org/x/tools/go/ssa"
@@ -964,6 +965,22 @@ func (c *CEnv) call(x *ast.CallExpr) CVal {
 			v = c.lit(v, at.Elem())
 		}
 		return CVal{S: fmt.Sprintf("(store %s %s %s)", a.S, i.S, v.S), T: a.T}
+	case "inre":
+		// inre(s, "go regular expression"): MatchString semantics
+		lit, ok := arg(1).(*ast.BasicLit)
+		if !ok || lit.Kind != token.STRING {
+			return c.fail("inre(s, \"regexp literal\")")
+		}
+		src, err := strconv.Unquote(lit.Value)
+		if err != nil {
+			return c.fail("inre: %v", err)
+		}
+		re, err := regexToSMT(src)
+		if err != nil {
+			return c.fail("inre: %v", err)
+		}
+		v := c.ev(arg(0))
+		return CVal{S: fmt.Sprintf("(str.in_re %s %s)", v.S, re), T: boolT}
 	case "isnan":
 		v := c.ev(arg(0))
 		return CVal{S: "(fp.isNaN " + v.S + ")", T: boolT}
